@@ -185,6 +185,12 @@ def run_module_case(case):
     from monkeytype.typing import make_typed_dict
     mk = lambda req, opt: make_typed_dict(required_fields=req, optional_fields=opt)  # noqa: E731
     rt = lambda a: None if a is None or a["k"] == "absent" else absmodel.real_type(a, make_td=mk)  # noqa: E731
+    # traces given by VALUES: the traced type is what the real get_type infers for the value under this case's limit
+    from monkeytype.typing import get_type
+    for f in case["funcs"]:
+        for tr in f.get("traces") or []:
+            for n, v in (tr.pop("vals", None) or {}).items():
+                tr["args"][n] = absmodel.abs_type(get_type(absmodel.real_value(v), case["k"]))
     mod, path = load_module(case["funcs"])
     mod2 = path2 = None
     try:
@@ -416,6 +422,19 @@ def gen_c12(tier, seed):
             ps = [{"name": "a", "kind": "poskw", "default": None}]
             fs.append({"name": nm, "container": [cls], "fkind": "instance", "params": ps, "traces": traces_for(ps)})
         cases.append({"funcs": fs, "strategy": "REPLICATE", "k": 0, "family": "c12_interleaved_classes"})
+    # traces taken from VALUES (real get_type, limit k > 0): dicts whose string keys cannot be written as fields of a
+    # class-syntax TypedDict - the stub must still be Python
+    V = lambda kind, n="", a=(): {"k": kind, "n": n, "a": list(a), "u": []}  # noqa: E731
+    vd = lambda *keys: V("dict", "", [V("pair", "", [V("str", k), V("atom", "int")]) for k in keys])  # noqa: E731
+    for n, val in enumerate([vd("content-type"), vd("class", "a"), vd("1abc"), vd("a b"), vd(""), vd("a", "b"),
+                             V("list", "", [vd("x-y"), vd("x")]), V("tuple", "", [vd("def"), V("atom", "int")]),
+                             vd("__a", "_"), vd("None"), vd("True", "a")]):
+        for k in (3, 10):
+            for fk, cont in (("module", []), ("instance", ["Cls"])):
+                ps = [{"name": "d", "kind": "poskw", "default": None}]
+                f = {"name": "odd_keys_%d" % n, "container": cont, "fkind": fk, "params": ps,
+                     "traces": [{"args": {}, "vals": {"d": val}, "ret": None, "yld": None}]}
+                cases.append({"funcs": [f], "strategy": "REPLICATE", "k": k, "family": "c12_dict_keys_that_are_not_identifiers"})
     # long names force wrapping at 120 columns; classes one and two levels deep
     for n in range(40 if tier == "quick" else 300):
         ps = rng.choice(sh)
